@@ -361,11 +361,12 @@ def run_cases(tag: str, imports: str, defs: str, cases: Sequence[str],
     for si in range(0, len(cases), shard):
         chunk = cases[si:si + shard]
         body = [CASE_HEADER.format(imports=imports, defs=defs)]
+        # indexes are binary N numerals (a `%nat` literal is unary: quadratic)
         if flagged:
-            body.append("Definition cases0 : list (nat * (bool * bool)) := [")
+            body.append("Definition cases0 : list (N * (bool * bool)) := [")
         else:
-            body.append("Definition cases : list (nat * bool) := [")
-        body.append(";\n".join(f"({si + j}%nat, {c})" for j, c in enumerate(chunk)))
+            body.append("Definition cases : list (N * bool) := [")
+        body.append(";\n".join(f"({si + j}%N, {c})" for j, c in enumerate(chunk)))
         body.append("].")
         if flagged:
             body.append("Definition cases1 := Eval vm_compute in cases0.")
@@ -386,7 +387,7 @@ def run_cases(tag: str, imports: str, defs: str, cases: Sequence[str],
             if rc != 0:
                 errors.append(f"{f.name}: {out[-800:]}")
                 continue
-            ms = re.findall(r"=\s*(\[[^\]]*\]|nil)\s*:\s*list nat", out, re.S)
+            ms = re.findall(r"=\s*(\[[^\]]*\]|nil)\s*:\s*list N", out, re.S)
             if len(ms) != (2 if flagged else 1):
                 errors.append(f"{f.name}: unparsed output {out[-300:]}")
                 continue
